@@ -115,10 +115,45 @@ theorem removeIncomplete_rule (env : Env) (l : List Hit) (hl : ∀ h ∈ l, 0 < 
     removeIncomplete env l = specIncomplete env l :=
   removeIncomplete_eq_spec env l hl
 
-/-- so `refine` is that rule applied to the accounted-for list -/
-theorem refine_is_rule_of_survivors (env : Env) (nb : Bool) (l : List Hit) (hl : ∀ p, 0 < env.len p) :
-    refine env nb l = specIncomplete env (beforeIncomplete env nb l) :=
-  removeIncomplete_eq_spec env _ (fun h _ => hl h.prof)
+/-- so `refine` is that rule applied to the accounted-for list (round 6: the profile lengths need to
+    be positive only for the profiles of the raw hits — merging and the overlap pass introduce no other
+    profile) -/
+theorem refine_is_rule_of_survivors (env : Env) (nb : Bool) (l : List Hit) (hl : ∀ h ∈ l, 0 < env.len h.prof) :
+    refine env nb l = specIncomplete env (beforeIncomplete env nb l) := by
+  apply removeIncomplete_eq_spec env _
+  intro o ho
+  obtain ⟨f, hf, e⟩ := beforeIncomplete_prof env nb l o ho
+  rw [← e]; exact hl f hf
+
+/-- **the executable provenance check is complete** (round 6; was "search not verified"): the very
+    relation the driver evaluates on the implementation's output — every returned hit is an input hit
+    or `isMergeOf` a sub-list, found by search, of the same-profile raw hits inside it — holds for the
+    model on every input, both modes -/
+theorem refine_provenance_search_succeeds (env : Env) (nb : Bool) (l : List Hit) :
+    allProvenanceOK env (sortHits l) (refine env nb l) = true :=
+  allProvenanceOK_refine env nb l
+
+/-- the fragments can be taken in position order: a sub-list of the sorted raw hits -/
+theorem refine_provenance_ordered (env : Env) (nb : Bool) (l : List Hit) : ∀ o ∈ refine env nb l,
+    ∃ F, F.Sublist (sortHits l) ∧ isMergeOf env F o = true := by
+  intro o ho
+  obtain ⟨F, hsub, hm⟩ := beforeIncomplete_sub env nb l o ((removeIncomplete_sublist env _).subset ho)
+  exact ⟨F, hsub, isMergeOf_of env hm⟩
+
+/-- `removeOverlapping_dropped_against_kept` without the position-order hypothesis (round 6): on *any*
+    list a result missing from the output collides — the one earlier in the list first, as the code
+    orients the test — with a returned result of higher score, or equal score and earlier place -/
+theorem removeOverlapping_dropped_against_kept_any_order (env : Env) (l : List Hit) (j : Nat) (d : Hit)
+    (hj : l[j]? = some d) :
+    d ∈ removeOverlapping env l ∨
+      ∃ i k, l[i]? = some k ∧ k ∈ removeOverlapping env l ∧ i ≠ j ∧
+        (if j ≤ i then conflict env d k else conflict env k d) = true ∧
+        (d.sc < k.sc ∨ (k.sc = d.sc ∧ i < j)) :=
+  removeOverlapping_justified_any env l j d hj
+
+/-- non-vacuity: an unsorted list — `[50,150)` comes first, `[0,100)` second with the higher score -/
+example : removeOverlapping { len := fun _ => 100 } [⟨0, 50, 150, 1, 100⟩, ⟨1, 0, 100, 1, 200⟩] =
+    [⟨1, 0, 100, 1, 200⟩] := by decide
 
 /-! ## `hmmer.remove_overlapping` (with fixes D25, D26) -/
 
@@ -543,6 +578,23 @@ theorem refine_record_is_per_gene (env : Env) (nb : Bool) (raw : List (Int × Hi
 theorem refine_record_perm_invariant (env : Env) (nb : Bool) (r₁ r₂ : List (Int × Hit)) (h : r₁.Perm r₂) (g : Int) :
     lookupGene (refineRecord env nb r₁) g = lookupGene (refineRecord env nb r₂) g :=
   refineRecord_perm env nb h g
+
+/-- `run_hmmer` on a whole hmmscan output (round 6): with filtering, the returned list is the loci's own
+    results one after the other, in the order the loci first appear among the hits passing the cuts
+    (`results_by_cds` is a dict); loci do not interact -/
+theorem run_hmmer_record_is_per_locus (cut : Int → Option Int) (minScore maxEvalue : Int) (raw : List (Int × RawHmm))
+    (outOf : Int → List HHit)
+    (h : ∀ g ∈ runHmmerLoci minScore maxEvalue raw,
+      runHmmerGene cut minScore maxEvalue ((raw.filter fun r => r.1 == g).map (·.2)) = .ok (outOf g)) :
+    runHmmerRecord cut minScore maxEvalue raw true =
+      .ok ((runHmmerLoci minScore maxEvalue raw).flatMap fun g => (outOf g).map fun h => (g, h)) :=
+  runHmmerRecord_ok cut minScore maxEvalue raw outOf h
+
+/-- non-vacuity: two loci interleaved; locus 7 appears first among the passing hits, its two clashing hits
+    compete on their own, locus 3's hit below the minimum score is cut before anything else -/
+example : (runHmmerRecord (fun _ => some 8) 4 5
+    [(3, ⟨⟨0, 0, 30, 4⟩, 1⟩), (7, ⟨⟨0, 0, 50, 20⟩, 1⟩), (3, ⟨⟨1, 10, 60, 40⟩, 1⟩), (7, ⟨⟨1, 5, 55, 40⟩, 1⟩)] true).toOption =
+    some [(7, ⟨1, 5, 55, 40⟩), (3, ⟨1, 10, 60, 40⟩)] := by decide
 
 /-- `run_hmmer(filter_overlapping=False)`: exactly the hits passing the two cuts, in hmmscan order -/
 theorem run_hmmer_unfiltered (cut : Int → Option Int) (minScore maxEvalue : Int) (raw : List RawHmm) :
